@@ -1286,7 +1286,7 @@ pub fn c05(ctx: &mut Ctx) {
         // the signed-header list is taken as sent: a required name listed in another letter case is not listed
         // (its header then contributes no line either), so such a request must be refused before key lookup
         if ok && i % 4 < 2 {
-            let required: Vec<String> = s.signed_names.iter().filter(|n| *n == "host" || always.iter().any(|a| a.eq_ignore_ascii_case(n))).cloned().collect();
+            let required: Vec<String> = s.signed_names.iter().filter(|n| n.as_bytes().first().map(|b| b.is_ascii_lowercase()).unwrap_or(false) && (*n == "host" || always.iter().any(|a| a.eq_ignore_ascii_case(n)))).cloned().collect();
             if let Some(victim) = required.get(i % required.len().max(1)) {
                 let listing = s.signed_names.join(";");
                 let changed = s.signed_names.iter().map(|n| if n == victim { let mut c = n.clone(); c[..1].make_ascii_uppercase(); c } else { n.clone() }).collect::<Vec<_>>().join(";");
